@@ -30,6 +30,36 @@ func (g *Gen) OlvmNativeInterleave() []txgen.Tx {
 		tx.Note = fmt.Sprintf("olvm:%s:%d", e.Name, n)
 		return g.note(tx)
 	}
+	if g.Uniform(3, "il-sender-shape") == 0 {
+		// the EVM SENDER in the middle: a transaction of e that is refused before it executes (nonce too low, value above
+		// its balance, memo that is not the nonce), a native transfer to e, then a valid transaction of e
+		toA := to
+		bad := txgen.OLVMArgs{ChainID: w.P.ChainID, Nonce: nonce, To: &toA, Value: big.NewInt(5), Fee: fee}
+		tag := ""
+		switch g.Uniform(3, "il-bad") {
+		case 0:
+			if nonce > 0 {
+				bad.Nonce = nonce - 1
+				tag = "nonce-low"
+			} else {
+				bad.Value = new(big.Int).Mul(big.NewInt(900000000), e18)
+				tag = "value-over-balance"
+			}
+		case 1:
+			bad.Value = new(big.Int).Mul(big.NewInt(900000000), e18)
+			tag = "value-over-balance"
+		default:
+			m := "x"
+			bad.Memo = &m
+			tag = "olvm-bad-memo"
+		}
+		btx := txgen.OLVM(e, bad)
+		btx.Tags = []string{"olvm-transfer", "interleave", tag}
+		btx.Note = fmt.Sprintf("olvm:%s:%d", e.Name, bad.Nonce)
+		credit := txgen.Send(a, a.Addr, e.OLAddr(), txgen.Amt("OLT", new(big.Int).Mul(big.NewInt(int64(1+g.Uniform(50, "il-credit"))), e18)), w.Fee, w.Memo())
+		credit.Tags = []string{"interleave"}
+		return []txgen.Tx{g.note(btx), g.note(credit), olvm(nonce, 1+int64(g.Uniform(1000, "il-v-ok")))}
+	}
 	v1 := []int64{0, 0, 1, 1000}[g.Uniform(4, "il-v1")]
 	v3 := []int64{1, 1, 0, 1000000}[g.Uniform(4, "il-v3")]
 	amt := new(big.Int).Mul(big.NewInt(int64(1+g.Uniform(500, "il-amt"))), e18)
